@@ -256,7 +256,10 @@ Definition is_dml (o : op) : bool :=
   | OInsert _ _ _ | OInsert2 _ _ _ _ _ | OInsertAuto _ _ | OUpsert _ _ _ | OUpdate _ _ _ _ | ODelete _ _ _ => true
   | _ => false
   end.
+(* since 82bd2bd execPreparedStmts refuses every statement that is not read-only in a read-only
+   transaction before executing it (also an UPDATE / DELETE that would match no row) *)
 Definition mdml (d : db) (last : N) (o : op) (x : mtx) : option mtx :=
+  if x_ro x then None else
   match o with
   | OInsert t pk v => m_put_row d last true t pk v x
   | OInsert2 t pk1 v1 pk2 v2 => obind (m_put_row d last true t pk1 v1 x) (m_put_row d last true t pk2 v2)
